@@ -205,9 +205,14 @@ func (s *Signing) processEndMessage(ctx context.Context) error {
 				s.Log.Info().Msg("Successfully generated signature")
 				signature, _ := result.(taproot.Signature)
 
-				s.resultChn <- Signature{
+				// whoever waited for the result may have given up already (its context is cancelled then):
+				// do not wait for it for ever
+				select {
+				case s.resultChn <- Signature{
 					Signature: signature,
 					Id:        s.id,
+				}:
+				case <-ctx.Done():
 				}
 				s.Cancel()
 				return nil
